@@ -174,9 +174,11 @@ class Weaver:
         inner_src = src[s:e].decode("utf-8")
         for v in it["vis"]:
             ed.replace(v[0], v[1], "pub", "D3")
+        for pos in it.get("private_fields", []):
+            ed.insert(pos, "pub ", "D3")
         text, fired = ed.apply()
         # field/variant-level attributes and doc comments: strip textually (they are #[...] / /// lines)
-        text2 = strip_inner_attrs(text)
+        text2 = strip_inner_attrs(text, tuple(spec.get('keep_attrs', [])))
         if text2 != text:
             fired.append("D2")
             text = text2
@@ -377,7 +379,7 @@ class Weaver:
         return text, it
 
 
-def strip_inner_attrs(text):
+def strip_inner_attrs(text, keep=()):
     """Remove `#[...]` attributes (balanced) and `///` doc lines inside an item body."""
     out = []
     i = 0
@@ -394,7 +396,7 @@ def strip_inner_attrs(text):
             out.append(text[i:j])
             i = j
             continue
-        if text.startswith("#[", i) and not text.startswith("#[derive", i):
+        if text.startswith("#[", i) and not text.startswith("#[derive", i) and not any(text.startswith("#[" + k, i) for k in keep):
             d = 0
             j = i + 1
             while j < n:
